@@ -137,8 +137,10 @@ class Run:
             "violations": len(self.violations),
             "repo": REPO,
         }
-        os.makedirs(os.path.join(VERIF, "evidence"), exist_ok=True)
-        with open(os.path.join(VERIF, "evidence", f"{self.pid}.json"), "w") as fh:
+        # evidence/ is only ever written from runs against /repo itself (seed tests use a scratch worktree)
+        evdir = os.path.join(VERIF, "evidence") if os.path.realpath(REPO) == "/repo" else os.path.join(OUT, "evidence-scratch")
+        os.makedirs(evdir, exist_ok=True)
+        with open(os.path.join(evdir, f"{self.pid}.json"), "w") as fh:
             json.dump(ev, fh, indent=1, default=str)
         for f in self.findings:
             if f.get("status") == "known" and self.known_hits.get(f["id"]):
